@@ -29,8 +29,9 @@ class Path:
 class Explorer:
     """classify(call_node) -> None | ('event', name) | ('oracle', name, [exception classes])"""
 
-    def __init__(self, prog: Program, fn: FuncInfo, classify: Callable, counters: Dict[str, int]):
+    def __init__(self, prog: Program, fn: FuncInfo, classify: Callable, counters: Dict[str, int], on_stmt: Optional[Callable] = None):
         self.prog, self.fn, self.classify = prog, fn, classify
+        self.on_stmt = on_stmt            # on_stmt(simple statement) -> event name | None (recorded after the statement's calls)
         self.counters = dict(counters)
         self.handler_stack: List[Tuple[Optional[str], str]] = []
         self.n = 0
@@ -258,7 +259,11 @@ class Explorer:
         if isinstance(s, ast.Assert):
             return [Path("normal", None, env, trace)]
         if isinstance(s, (ast.Expr, ast.Assign, ast.AugAssign, ast.AnnAssign)):
-            return self.effects(s, env, trace)
+            outs = self.effects(s, env, trace)
+            ev = self.on_stmt(s) if self.on_stmt else None
+            if ev:
+                outs = [Path(p.kind, p.exc, p.env, p.trace + ((ev,) if p.kind == "normal" else ()), p.node) for p in outs]
+            return outs
         if isinstance(s, (ast.For, ast.AsyncFor)):
             # drains / iteration: zero or one pass is enough for the event automaton (events inside are recorded once)
             pre = self.effects(s.iter, env, trace)
